@@ -3,6 +3,7 @@
 package gtree
 
 import (
+	"context"
 	"io/fs"
 	"path"
 	"path/filepath"
@@ -61,7 +62,8 @@ func c07Name(maxlen int) string {
 
 // VerifC07: byte level. Trees of 2..3 nodes (chain, or root with two children) whose names are arbitrary ASCII byte
 // strings of length 1..L; real path.Join/Clean, filepath.Join, fs.ValidPath, strings code. Every Mkdir entry point
-// (From-Markdown, From-Root, each real and dry-run, with and without an extension). verifN() = 10*nodes + L.
+// (From-Markdown, From-Root, each real and dry-run, From-Markdown also with the massive option, with and without
+// an extension). verifN() = 10*nodes + L.
 // Assertions: every path handed to a mutating os call is lexically inside the target; a name that is not a single
 // valid path element makes the call fail; and then no mutating call was made at all.
 func VerifC07() {
@@ -96,24 +98,35 @@ func VerifC07() {
 	if verifFlag("ext") {
 		exts = []string{".x"}
 	}
-	route := verifChoose("route", 0, 4)
+	route := verifChoose("route", 0, 6)
 	target := c07Target()
 	c07Seal()
 	w := newVerifWriter()
 	color.Output = w
 	var err error
 	verifContext("C07.mkdir")
-	switch route {
-	case 0, 1:
+	mdRows := func() []string {
+		// notation bytes as a literal prefix: the massive-mode splitter looks at the first byte of a row
 		var rows []string
 		for i, nm := range names {
-			rows = append(rows, verifRow("", 0, depth(i), nm))
+			pre := "- "
+			for k := uint(0); k < depth(i); k++ {
+				pre = "  " + pre
+			}
+			rows = append(rows, verifRow(pre, 0, depth(i), nm))
 		}
+		return rows
+	}
+	switch route {
+	case 0, 1, 5, 6:
 		opts := []Option{WithTargetDir(target), WithFileExtensions(exts)}
-		if route == 1 {
+		if route == 1 || route == 6 {
 			opts = append(opts, WithDryRun())
 		}
-		err = MkdirFromMarkdown(&verifReader{lines: rows}, opts...)
+		if route >= 5 {
+			opts = append(opts, WithMassive(context.Background()))
+		}
+		err = MkdirFromMarkdown(&verifReader{lines: mdRows()}, opts...)
 	case 2, 3:
 		root := NewRoot(names[0])
 		cur := root
@@ -129,22 +142,21 @@ func VerifC07() {
 		}
 		err = MkdirFromRoot(root, opts...)
 	case 4: // the CLI's dry-run route
-		var rows []string
-		for i, nm := range names {
-			rows = append(rows, verifRow("", 0, depth(i), nm))
-		}
-		err = OutputFromMarkdown(w, &verifReader{lines: rows}, WithDryRun(), WithFileExtensions(exts))
+		err = OutputFromMarkdown(w, &verifReader{lines: mdRows()}, WithDryRun(), WithFileExtensions(exts))
 	}
 	calls := verifFSCalls()
 	for _, p := range calls {
 		verifAssert(c07Within(target, p), "C07.inside")
 	}
-	if route == 1 || route == 3 || route == 4 {
+	if route == 1 || route == 3 || route == 4 || route == 6 {
 		verifAssert(len(calls) == 0, "C07.dryrun.nothing")
 	}
 	if !allValid {
 		verifAssert(err != nil, "C07.reject")
-		verifAssert(len(calls) == 0, "C07.nothing")
+		if route < 5 {
+			// without the massive option nothing at all is created
+			verifAssert(len(calls) == 0, "C07.nothing")
+		}
 	} else {
 		verifAssert(err == nil, "C07.accept")
 	}
